@@ -133,6 +133,9 @@ def render_case(fx, case, raw):
                           resolvePath=False, resolveShellSubstitutions=case["rss"], expandArguments=case["mode"])
         except ValueError:
             return {"ok": False}
+        target = c
+        if case.get("wrap"):
+            c = X.Executor(target, fx.base + "/bin/tool", arguments="-x $V", environment={"V": "exec", "E": "e"})
         if case["rw"]:
             c.setRewriteRule({"pattern": re.escape(fx.base), "replacement": fx.repl})
         try:
@@ -143,7 +146,15 @@ def render_case(fx, case, raw):
         if a != b:
             return {"error": "commandLine read twice: %r then %r" % (a, b)}
         cwd = os.getcwd()
-        return {"ok": True, "line": a, "cwd": cwd}
+        out = {"ok": True, "line": a, "cwd": cwd}
+        if case.get("wrap"):
+            env = c.environment
+            out["wenv"] = {"V": env.get("V"), "E": env.get("E")}
+            if c.workingDir != target.workingDir:
+                return {"error": "Executor.workingDir %r differs from its target's %r" % (c.workingDir, target.workingDir)}
+            if set(target.environment) - set(env):
+                return {"error": "Executor.environment lacks variables of its target: %s" % sorted(set(target.environment) - set(env))}
+        return out
     except Exception as e:      # noqa
         return {"error": "%s: %s" % (type(e).__name__, str(e)[:200])}
 
